@@ -524,6 +524,19 @@ pub fn run(tier: &str) -> i32 {
     let c = space_c(thorough);
     let n_c = c.len();
     progs.extend(c);
+    // module-scope declaration order is not significant in WGSL: the same programs with their declarations reversed
+    // and with the functions first (every 8th program in quick)
+    let n0 = progs.len();
+    for i in 0..n0 {
+        if !(thorough || hash64(&progs[i].key) % 8 == 1) {
+            continue;
+        }
+        for how in ["reverse", "entries-first"] {
+            if let Some(src) = reorder_decls(&progs[i].src, how) {
+                progs.push(Prog { key: format!("{}|decl-order={how}", progs[i].key), src, expect: progs[i].expect.clone(), steps: progs[i].steps });
+            }
+        }
+    }
     // regression corpus for listed findings first: none for C03
     let results = par_map(&progs, |p| {
         let mut r = Report::new("C03", tier);
@@ -551,7 +564,7 @@ pub fn run(tier: &str) -> i32 {
         n_c
     );
     rep.assumptions.push("omodel reads visibility expressions as rustc would (bound to rustc by the L2-exec conformance batch of C02/C04)".into());
-    rep.assumptions.push("a pointer taken and never used is excluded from the alphabet (WGSL static access vs naga GlobalUse differ; statement does not decide it)".into());
+    rep.assumptions.push("a variable that is only named (`_ = res;`, `let p = &res;`) counts as statically accessed (WGSL's definition); naga's GlobalUse is empty there, so for such programs the naga cross-check only requires naga's answer to be a subset".into());
     let total = rep.states;
     let filtered: u64 = rep.filtered_out.values().sum();
     if filtered * 2 > total {
